@@ -80,7 +80,7 @@ def run(ctx):
         po = pywheel.run_py("py26", py_cases)
         ro = vlib.run_impl("run26", rs_cases)
         for c, c2, a, b in zip(py_cases, rs_cases, po, ro):
-            ctx.evaluations += 1
+            ctx.evaluations += 1; ctx.programs += 1
             if c not in ctx.distinct:
                 ctx.distinct.add(c)
                 if len(c) > 30:
@@ -112,7 +112,7 @@ def run(ctx):
     po = pywheel.run_py("py26", hp, shards=min(8, len(hp)))
     ro = vlib.run_impl("run26", hr, shards=min(8, len(hr)))
     for c, c2, a, b, (t, w) in zip(hp, hr, po, ro, meta):
-        ctx.evaluations += 1
+        ctx.evaluations += 1; ctx.programs += 1
         ctx.histogram("heap_limit", "word=%#x %s" % (w, " ".join(a.split()[:2])[:24]))
         if a != b:
             ctx.violation("heap limit: the wheel and the Rust core with the model's heap limit disagree (filler %d bytes, flag word %#x)" % (t, w),
@@ -135,7 +135,7 @@ def run(ctx):
     ro = vlib.run_impl("run26", sc)
     blobs = {"legacy": [], "backrefs": [], "2026": []}
     for c, a, b in zip(sc, po, ro):
-        ctx.evaluations += 1
+        ctx.evaluations += 1; ctx.programs += 1
         if a != b:
             ctx.violation("ser_%s differs from the Rust serializer" % c.split()[1],
                           {"case": c[:3000], "family": "py26", "runner": "pywheel", "impl": a, "rust": b})
@@ -181,7 +181,7 @@ def run(ctx):
     po = pywheel.run_py("py26", dc_py)
     ro = vlib.run_impl("run26", dc_rs)
     for c, c2, a, b in zip(dc_py, dc_rs, po, ro):
-        ctx.evaluations += 1
+        ctx.evaluations += 1; ctx.programs += 1
         t = c.split()
         ctx.histogram("deser", t[1] + " " + (a.split()[0] if a else "none"))
         want = b
@@ -195,13 +195,13 @@ def run(ctx):
     po = pywheel.run_py("py26", vc)
     ro = vlib.run_impl("run26", vc)
     for c, a, b in zip(vc, po, ro):
-        ctx.evaluations += 1
+        ctx.evaluations += 1; ctx.programs += 1
         if a != b:
             ctx.violation("LazyNode atom/pair view differs from the Rust tree",
                           {"case": c[:3000], "family": "py26", "runner": "pywheel", "impl": a, "rust": b})
     wc = ["serde %s %s" % (fmt, gen.hx(b)) for fmt, b in mutated[:600]]
     for c, a in zip(wc, pywheel.run_py("py26", wc)):
-        ctx.evaluations += 1
+        ctx.evaluations += 1; ctx.programs += 1
         if a.startswith("MISMATCH") or a.startswith("crash"):
             ctx.violation("clvm_rs.serde wrapper differs from the direct call",
                           {"case": c[:3000], "family": "py26", "runner": "pywheel", "impl": a})
